@@ -630,10 +630,12 @@ impl ValueMeta for Expression {
             }
             Phi { meta, args, .. } => {
                 // Only set the value of the phi expression if all arguments agree on the value.
+                // (A phi expression with a single argument joins a path on which the variable has
+                // not been assigned to, where it holds the initial value zero.)
                 let values =
                     args.iter().map(|name| env.get_variable(name)).collect::<Option<HashSet<_>>>();
                 match values {
-                    Some(values) if values.len() == 1 => {
+                    Some(values) if values.len() == 1 && args.len() > 1 => {
                         // This unwrap is safe since the size is non-zero.
                         let value = *values.iter().next().unwrap();
                         meta.value_knowledge_mut().set_reduces_to(value.clone())
